@@ -353,6 +353,14 @@ class Ctx:
                 print("VIOLATION property=%s replay=%s" % (self.prop, v["replay"]))
                 log("   " + v["summary"][:400])
             return 1
+        # success: the bulky intermediates (emitted cases, event logs, TLC output) are not needed any more
+        for fn in os.listdir(self.outdir):
+            fp = os.path.join(self.outdir, fn)
+            try:
+                if os.path.isfile(fp) and os.path.getsize(fp) > (1 << 20):
+                    os.unlink(fp)
+            except OSError:
+                pass
         print("OK property=%s tier=%s states=%d transitions=%d cases_replayed=%d trace_events=%d wall=%.0fs" % (
             self.prop, self.tier, states, trans, self.cases_replayed, self.events_validated, time.time() - self.t0))
         return 0
